@@ -28,8 +28,8 @@ func init() {
 type fidelityScope struct {
 	id, prop string
 	floor    int
-	pkgs     []string                // systems/<name> suffixes
-	skip     func(rest string) bool  // obligations (key without the pair name) that are not this property's business
+	pkgs     []string               // systems/<name> suffixes
+	skip     func(rest string) bool // obligations (key without the pair name) that are not this property's business
 	doc      string
 }
 
